@@ -123,6 +123,10 @@ def split_shards(skels, m, nevents=2, evented_only=False):
             if sk['kind'][i] <= ORTH:
                 for e in range(1 if evented_only else 0, nevents + 1):
                     out.append({'skel': sk, 'fix': {'src0': i, 'evt0': e}})
+    if m and 0 < len(out) < 150:
+        # few big shards leave most workers idle behind a straggler: also fix the target of the first transition
+        # (combinations the well-formedness rules exclude are empty shards)
+        out = [{'skel': sh['skel'], 'fix': dict(sh['fix'], tgt0=t)} for sh in out for t in range(-1, sh['skel']['N'])]
     return out
 
 
